@@ -721,11 +721,21 @@ def translate_fn(f, out):
             elif op == 'load':
                 p.accept('volatile'); p.accept('atomic')
                 t = p.type(); p.expect(','); pt = p.type(); a = operand(p, pt, f)
-                setv(t, '*(%s*)%s' % (ctype(t), a.c))
+                rt_ = resolve(t)
+                if isinstance(rt_, IntT) and rt_.bits not in (1, 8, 16, 32, 64) and rt_.bits % 8 == 0 and rt_.bits < 64:
+                    nb = rt_.bits // 8
+                    setv(t, '({ char* s_ = %s; (%s)(%s); })' % (a.c, ctype(t), ' | '.join('((uint64_t)*(uint8_t*)(s_+%d) << %d)' % (i, 8 * i) for i in range(nb))))
+                else:
+                    setv(t, '*(%s*)%s' % (ctype(t), a.c))
             elif op == 'store':
                 p.accept('volatile'); p.accept('atomic')
                 t = p.type(); v = operand(p, t, f); p.expect(','); pt = p.type(); a = operand(p, pt, f)
-                emit('*(%s*)%s = %s;' % (ctype(t), a.c, v.c))
+                rt_ = resolve(t)
+                if isinstance(rt_, IntT) and rt_.bits not in (1, 8, 16, 32, 64) and rt_.bits % 8 == 0 and rt_.bits < 64:
+                    nb = rt_.bits // 8
+                    emit('{ char* d_ = %s; uint64_t x_ = %s; %s }' % (a.c, v.c, ' '.join('*(uint8_t*)(d_+%d) = (uint8_t)(x_ >> %d);' % (i, 8 * i) for i in range(nb))))
+                else:
+                    emit('*(%s*)%s = %s;' % (ctype(t), a.c, v.c))
             elif op == 'getelementptr':
                 p.accept('inbounds')
                 bt = p.type(); p.expect(','); pt = p.type(); base = operand(p, pt, f)
@@ -1000,6 +1010,9 @@ def call_expr(name, callee, rt, args, argts, fty):
                 return '((%s)(%s %% %d ? ((%s << (%s %% %d)) | (%s >> (%d - %s %% %d))) : %s))' % (ct, a[2].c, bits, a[0].c, a[2].c, bits, a[1].c, bits, a[2].c, bits, a[0].c)
             return '((%s)(%s %% %d ? ((%s << (%d - %s %% %d)) | (%s >> (%s %% %d))) : %s))' % (ct, a[2].c, bits, a[0].c, bits, a[2].c, bits, a[1].c, a[2].c, bits, a[1].c)
         if name.startswith('llvm_usub_sat'): return '(%s > %s ? (%s)(%s - %s) : 0)' % (a[0].c, a[1].c, ctype(rt), a[0].c, a[1].c)
+        if name.startswith('llvm_round_f64'): return 'round(%s)' % a[0].c
+        if name.startswith('llvm_log2_f64'): return 'log2(%s)' % a[0].c
+        if name.startswith('llvm_fabs_f64'): return 'fabs(%s)' % a[0].c
         if name.startswith('llvm_stacksave'): return '((char*)0)'
         if name.startswith('llvm_stackrestore'): return None
         if name.startswith('llvm_prefetch'): return None
@@ -1023,8 +1036,9 @@ def call_expr(name, callee, rt, args, argts, fty):
     fp = '((%s(*)(%s))%s)' % (ctype(rt), ats, callee if not name else '&' + name)
     return '%s(%s)' % (fp, ', '.join(x.c for x in a))
 
-LIBC = {'memcpy', 'memmove', 'memset', 'malloc', 'free', 'memcmp', 'strlen', 'bcmp', 'memchr', 'strcmp', 'abort', 'sprintf', 'snprintf', 'printf'}
+LIBC = {'memcpy', 'memmove', 'memset', 'malloc', 'free', 'memcmp', 'strlen', 'bcmp', 'memchr', 'strcmp', 'abort'}
 PRELUDE = r'''
+#define VP_UNIT 1
 #include "vp_rt.h"
 '''
 
